@@ -46,6 +46,8 @@ ASSUMPTIONS = [
     'the model runs one pass per evaluate; no ranges / CSE / k-th-call faults there',
     'set_value only on cells that are in the cell map',
     'RecursionError (Python recursion limit) is not provoked',
+    'when one evaluate call first builds two or more ranges (plain or CSE), the order in which graph construction '
+    'evaluates them is not modelled: the exception class of that call is compared up to "a pycel error"',
 ]
 TRUSTED = ['modelled, not verified: openpyxl ArrayFormula storage, networkx, Python exception semantics (try/except/'
            'finally, with-block), the concrete formula evaluator of pycel (compared on the generated language)']
@@ -136,9 +138,20 @@ def impl(case):
     out = []
     inputs, consts = {}, {}
     ref = []
+    cones = _cones(nodes)
+    built = set()
     for op in case['ops']:
         if op[0] == 'E':
-            out.append(_eval(comp, nodes[op[1]][1]))
+            o = _eval(comp, nodes[op[1]][1])
+            new_ranges = [j for j in cones[op[1]] - built
+                          if nodes[j][0] == 'R' or (nodes[j][0] == 'F' and nodes[j][2] == 'cse')]
+            built |= cones[op[1]]
+            if len(new_ranges) >= 2 and o.startswith('!exc:pycel:'):
+                # several ranges are first evaluated inside this call (graph construction); the order in which
+                # _process_gen_graph takes them (a LIFO work list) decides WHICH pycel error surfaces first and is not
+                # modelled: the class is compared up to "a pycel error" here
+                o = '!exc:pycel:*'
+            out.append(o)
             ref.append((dict(inputs), dict(consts), op[1]))
         else:
             v = c01._py(op[2])
@@ -188,6 +201,12 @@ def model_lines(case):
     for op in case['ops']:
         toks += ['E', str(op[1])] if op[0] == 'E' else ['S', str(op[1]), op[2]]
     return [' '.join(toks)]
+
+
+def same(impl_out, model_out):
+    a, b = (impl_out or '').split(';'), (model_out or '').split(';')
+    return len(a) == len(b) and all(x == y or (x == '!exc:pycel:*' and y.startswith('!exc:pycel:'))
+                                    for x, y in zip(a, b))
 
 
 def governed(case):
@@ -297,7 +316,7 @@ def finding_key(case, impl_out, model_out):
     ks = [k for k, _ in _violations(case, impl_out)]
     if model_out is not None:
         a, b = (impl_out or '').split(';'), model_out.split(';')
-        ks += [k for k, (x, y) in enumerate(zip(a, b)) if x != y]
+        ks += [k for k, (x, y) in enumerate(zip(a, b)) if not same(x, y)]
     if not ks:
         return None
     k = min(ks)
